@@ -25,6 +25,9 @@ def cases(ctx):
         for m in range(2, 7):
             for rep in range(ctx.pick(20, 3600)):
                 yield "dtlz", {"family": fam, "m": m, "seed": ctx.subseed(fam, m, rep), "points": ctx.pick(150, 400)}
+    for fam in ("DTLZI", "DTLZII", "DTLZIII", "DTLZIV", "ZDT1", "BiObjectiveTestProblem"):
+        for rep in range(ctx.pick(3, 60)):
+            yield "threads", {"family": fam, "seed": ctx.subseed("th", fam, rep)}
     for rep in range(ctx.pick(40, 9600)):
         yield "zdt1", {"seed": ctx.subseed("z", rep), "points": ctx.pick(300, 600)}
         yield "biobj", {"seed": ctx.subseed("b", rep), "points": ctx.pick(300, 600)}
@@ -139,6 +142,47 @@ def run_case(ctx, name, params):
                     ctx.violation("%s/norm_identity" % fam, "objective vector has norm %r, 1+g is %r" % (got, exp), wit())
                     return
             ctx.sample({"family": fam, "m": m, "x": x[:4] + ["..."], "f": f}, fam, 1)
+    elif name == "threads":
+        # one benchmark object evaluated by three threads at once (max_processes>1 does that), statement-level yields inside the
+        # benchmark code: every call must return the objectives of ITS point
+        import threading
+        from .. import sched
+        fam = params["family"]
+        m = r.randint(2, 5)
+        if fam.startswith("DTLZ"):
+            n = m + 9 if fam != "DTLZI" else m + r.randint(0, 6)
+            prob = hooks.tame(getattr(bp, fam)(dimension=n, m=m))
+        else:
+            prob = hooks.tame(getattr(bp, fam)())
+            n = len(prob.parameters)
+        box = [q["bounds"] for q in prob.parameters]
+        pts = [[lb + r.random() * (ub - lb) for lb, ub in box] for _ in range(30)]
+        serial = [[float(v) for v in prob.evaluate(Individual(list(q)))] for q in pts]
+        got = [None] * len(pts)
+
+        def work(k0):
+            for k in range(k0, len(pts), 3):
+                for _rep in range(2):
+                    got[k] = [float(v) for v in prob.evaluate(Individual(list(pts[k])))]
+        inj = sched.YieldInjector(params["seed"], prob=0.4, modules=("artap.benchmark_pareto", "artap.benchmark_functions"))
+        inj.start()
+        try:
+            ths = [threading.Thread(target=work, args=(k0,)) for k0 in range(3)]
+            for t in ths:
+                t.start()
+            for t in ths:
+                t.join()
+        finally:
+            inj.stop()
+        ctx.count("threaded_evaluations", 2 * len(pts))
+        ctx.count("line_yields_inside_benchmarks", inj.yields)
+        for k in range(len(pts)):
+            if got[k] != serial[k]:
+                ctx.violation("%s/threaded_value" % fam, "%s returned %r for a point whose objectives are %r when three threads evaluate "
+                              "different points on the same object" % (fam, got[k], serial[k]), {"x": pts[k]})
+                return
+        ctx.nontrivial(("th", fam, params["seed"]))
+        ctx.count("cases")
     elif name == "zdt1":
         prob = hooks.tame(bp.ZDT1())
         n = len(prob.parameters)
@@ -179,3 +223,4 @@ def requirements(ctx):
     ctx.require("zdt1_checks", 100)
     ctx.require("biobjective_checks", 100)
     ctx.require("re_evaluations_of_a_moved_individual", 500)
+    ctx.require("threaded_evaluations", 300)
